@@ -59,10 +59,24 @@ def nested(rng):
     return s
 
 
+def corpus_seqs():
+    import json
+    import os
+    out, d = [], os.path.join(common.CORPUS, 'C05')
+    if os.path.isdir(d):
+        for f in sorted(os.listdir(d)):
+            if f.endswith('.json'):
+                try:
+                    out.append([int(x) for x in json.load(open(os.path.join(d, f)))['sequence']])
+                except Exception:
+                    pass
+    return out
+
+
 def gen_single(rng, quick):
-    seqs = [[-2, 0, -1], [-1, 2, 2], [-16, -6, -10, -15, -1], [1, -3, 2, -1], [0, -2], [1, 0, 1], [3, -15, -15], [-1, -3, -3]]
-    seqs += list(hcm.all_seqs(range(-2, 3), 3 if quick else 5))
-    for _ in range(450 if quick else 6000):
+    seqs = corpus_seqs() + [[-2, 0, -1], [-1, 2, 2], [-16, -6, -10, -15, -1], [1, -3, 2, -1], [0, -2], [1, 0, 1], [3, -15, -15], [-1, -3, -3]]
+    seqs += list(hcm.all_seqs(range(-2, 3), 3 if quick else (5 if common.NCPU >= 8 else 4)))
+    for _ in range(450 if quick else (6000 if common.NCPU >= 8 else 2500)):
         s = hcm.random_seq(rng, 30 if rng.random() < 0.3 else 12)
         seqs.append(s)
         if rng.random() < 0.5:
